@@ -109,7 +109,9 @@ pub struct State {
     pub fail_by_suffix: Option<(u32, String)>,
     /// if set: at every removal, the value of this clock, the path and the image right after it
     pub removal_clock: Option<&'static std::sync::atomic::AtomicU64>,
-    pub removal_snaps: Vec<(u64, PathBuf, Image)>,
+    pub removal_snaps: Vec<(u64, String, Image)>,
+    /// also snapshot after every write to a manifest and after every rename
+    pub snap_meta: bool,
 }
 
 #[derive(Clone)]
@@ -167,6 +169,15 @@ impl State {
             }
         }
         Ok(())
+    }
+
+    /// crash image of the current contents, stamped with the harness clock (schedule x crash)
+    fn snapshot(&mut self, label: String) {
+        if let Some(clock) = self.removal_clock {
+            let img: Image = self.files.iter().map(|(p, d)| (p.clone(), lock(&d.bytes).clone())).collect();
+            let t = clock.load(Ordering::SeqCst);
+            self.removal_snaps.push((t, label, img));
+        }
     }
 
     fn record(&mut self, op: FsOp) {
@@ -409,12 +420,17 @@ impl Handle {
         }
         bytes[off..end].copy_from_slice(buf);
         self.cursor = end as u64;
+        drop(bytes);
         if !self.data.removed.load(Ordering::SeqCst) {
             st.record(FsOp::Write {
                 path: self.path.clone(),
                 offset: off as u64,
                 data: buf.to_vec(),
             });
+            if st.snap_meta && self.path.extension().map(|e| e == "manifest").unwrap_or(false) {
+                let name = self.path.file_name().map(|s| s.to_string_lossy().to_string()).unwrap_or_default();
+                st.snapshot(format!("a write of {} bytes to {}", buf.len(), name));
+            }
         }
         Ok(buf.len())
     }
@@ -568,6 +584,10 @@ impl FileSystem for VerifFs {
                     from: from.to_path_buf(),
                     to: to.to_path_buf(),
                 });
+                if st.snap_meta {
+                    let name = to.file_name().map(|s| s.to_string_lossy().to_string()).unwrap_or_default();
+                    st.snapshot(format!("the rename to {}", name));
+                }
                 Ok(())
             }
             None => Err(io::Error::new(io::ErrorKind::NotFound, "rename source missing")),
@@ -618,11 +638,8 @@ impl FileSystem for VerifFs {
                 d.removed.store(true, Ordering::SeqCst);
                 st.removed_paths.push(path.to_path_buf());
                 st.record(FsOp::Remove { path: path.to_path_buf() });
-                if let Some(clock) = st.removal_clock {
-                    let img: Image = st.files.iter().map(|(p, d)| (p.clone(), lock(&d.bytes).clone())).collect();
-                    let t = clock.load(Ordering::SeqCst);
-                    st.removal_snaps.push((t, path.to_path_buf(), img));
-                }
+                let name = path.file_name().map(|s| s.to_string_lossy().to_string()).unwrap_or_default();
+                st.snapshot(format!("the removal of {}", name));
                 Ok(())
             }
             None => Err(io::Error::new(
